@@ -238,6 +238,9 @@ pub fn hungarian_algorithm(
         .map(|(y, x)| adjacency_matrix[(*x, y)] as Score)
         .fold(Score::from(0u8), |acc, x| acc + x);
 
+    #[cfg(feature = "verif")]
+    crate::verif::record_labels(labels_x.to_vec(), labels_y.to_vec());
+
     (m_match, score)
 }
 
